@@ -3,7 +3,10 @@
 Proof: FP/Props/C12.lean about FP/Model/Wrapper.lean.
 Tie: K2 LP-dump equality of the three helpers; K1 differential runs of random wrapper histories
 (add_variables / queue_fix_variable / queue_set_var_lower_bound / set_objective / optimize) with bounds
-and costs read back from HiGHS. Oracle (property text): HiGHS min/max of the product / y variable with the
+and costs read back from HiGHS, and — against the model's solve of the box and its get_values — the objective
+constant and sense stored by HiGHS, the column indices of the variables add_variables returns, and after every
+optimize() the status, the values get_values returns (all columns, and a random sub-selection in random order),
+and get_objective_value(). Oracle (property text): HiGHS min/max of the product / y variable with the
 inputs fixed, requested bounds read back, values read back for the asked variables.
 """
 import json, random
@@ -14,17 +17,29 @@ from fpv.common import frac, qstr
 THEOREMS = ["FP.Props.C12." + t for t in
             ["binProd_exact", "numBits_spec", "intProd_sound", "intProd_complete", "piecewise_sound",
              "piecewise_complete", "piecewise_far_constants_feasible", "flush_fix_exact", "flush_lb_exact",
-             "flush_clears", "flush_lb_wrong_field_witness", "setObjective_replaces", "setObjective_cost"]]
+             "flush_clears", "flush_lb_wrong_field_witness", "set_objective_replaces", "offsetOf_spec", "no_objective",
+             "set_objective_twice", "setObjective_replaces", "setObjective_cost", "add_variables_handles",
+             "box_optimum_correct", "box_infeasible", "expectedValues_spec", "get_values_exact", "optimize_fresh",
+             "wsnaps_length", "readback_nth", "get_values_fresh", "readback_two_solves_witness"]]
 IMPORTS = ["FP.Props.C12"]
 RULE = ("helper calls with random bound pairs (lb=0<=ub incl. 0, powers of two and their neighbours, dyadic floats), random "
-        "range lists; random wrapper histories of 3-14 operations. Non-trivial: distinct input that emits at least one "
+        "range lists; random wrapper histories of 3-14 operations (objectives with / without a constant term, both senses; "
+        "every optimize() followed by a read-back of all columns and of a random sub-selection). Non-trivial: distinct input that emits at least one "
         "McCormick block (helpers) / contains at least one queued bound update or objective replacement (histories).")
 MODEL_SCOPE = ("modelled: add_binary_continuous_product_constraint, add_integer_continuous_product_constraint, "
                "add_piecewise_constant_constraint, queue_fix_variable, queue_set_var_lower_bound, "
-               "_apply_pending_bound_updates (HiGHS branch), set_objective/HighsCustom.set_objective_without_solving, "
-               "add_variables (scalar/list bounds). Not modelled: Gurobi branch, SIGALRM time-out plumbing, "
-               "get_variable_values name parsing (deprecated getter).")
-TRUSTED = ["highspy: changeColsBounds/changeColsCost set what they are given; getLp returns the stored model"]
+               "_apply_pending_bound_updates (HiGHS branch), set_objective/HighsCustom.set_objective_without_solving "
+               "(costs, objective constant = changeObjectiveOffset(expr.constant or 0.0), sense), "
+               "add_variables (scalar/list bounds; returned variables = column indices numCol+k), optimize() on a model "
+               "without rows (= a box with a linear objective: status, solution vector on the determined columns, objective "
+               "value), get_all_variable_values/get_values (index lookup in the vector of the last solve, in the order "
+               "asked), get_objective_value. Not modelled: Gurobi branch, SIGALRM time-out plumbing (the option variants "
+               "are run, their plumbing is not in the model), get_values(binary_values=True) rounding, what HiGHS keeps "
+               "after an infeasible solve or between a model change and the next optimize(), the value of a cost-0 "
+               "column with lb < ub, get_variable_values name parsing (deprecated getter).")
+TRUSTED = ["highspy: changeColsBounds/changeColsCost/changeObjectiveOffset/changeObjectiveSense set what they are given; "
+           "getLp returns the stored model; Highs.optimize() on a model without rows returns an optimal vertex of the box "
+           "(compared with the proven optimum on every run)"]
 ASSUMPTIONS = ["documented preconditions of the helpers: lb = 0 <= ub, binary/integer factor within its bound, x inside a range"]
 
 
@@ -187,23 +202,37 @@ def gen_history(rng, nops):
                 o["const"] = str(rng.choice([5, -3, 10, 1]))           # a constant term
             elif r < 0.5:
                 o["const"] = "0"                                        # a constant that is 0 (e.g. +5 -5)
+            if rng.random() < 0.3:
+                o["sense"] = "maximize"
             ops.append(o)
         else:
-            ops.append({"op": "optimize"})
-    ops.append({"op": "optimize"})
+            ops.append(gen_optimize(rng, ncols))
+    ops.append(gen_optimize(rng, ncols))
     return ops
 
 
-def run_history_real(fp, ops, variant=0, reads=None):
-    """`reads` (a list) receives, after every optimize(), (status, values read back for all columns, objective value)"""
+def gen_optimize(rng, ncols):
+    """an optimize() followed by get_values; "ask" (optional) = the column indices asked for, in the order asked"""
+    o = {"op": "optimize"}
+    if ncols and rng.random() < 0.6:
+        o["ask"] = rng.sample(range(ncols), rng.randint(1, ncols))
+    return o
+
+
+def run_history_real(fp, ops, variant=0, reads=None, extra=None):
+    """`reads` (a list) receives, after every optimize(), (status, values read back for all columns, objective value,
+    [key, value] pairs get_values returned for the op's "ask" selection (keys = positions in "ask") or None); `extra` (a dict)
+    receives the column indices of the variables every add_variables returned and the sense stored by HiGHS"""
     sw = new_sw(fp, variant)
     cols = []
     pfx = 0
+    handles = []
     for o in ops:
         if o["op"] == "addVars":
             bs = o["bounds"]
             vs = sw.add_variables(list(range(len(bs))), f"v{pfx}_", [num(b[0]) for b in bs], [num(b[1]) for b in bs], "continuous")
             cols += [vs[i] for i in range(len(bs))]
+            handles.append([int(vs[i].index) for i in range(len(bs))])
             pfx += 1
         elif o["op"] == "queueFix":
             sw.queue_fix_variable(cols[o["idx"]], num(o["v"]))
@@ -213,18 +242,24 @@ def run_history_real(fp, ops, variant=0, reads=None):
             expr = sw.quicksum([cols[i] * num(c) for i, c in o["terms"]])
             if o.get("const") is not None:
                 expr = expr + num(o["const"])
-            sw.set_objective(expr, sense="minimize")
+            sw.set_objective(expr, sense=o.get("sense") or "minimize")
         elif o["op"] == "optimize":
             sw.optimize()
             if reads is not None:
                 try:
                     vals = sw.get_values({j: c for j, c in enumerate(cols)})
-                    reads.append((str(sw.get_model_status()), [vals[j] for j in range(len(cols))], sw.get_objective_value()))
+                    got = None
+                    if o.get("ask") is not None:
+                        got = [[k, v] for k, v in sw.get_values({p: cols[i] for p, i in enumerate(o["ask"])}).items()]
+                    reads.append((str(sw.get_model_status()), [vals[j] for j in range(len(cols))], sw.get_objective_value(), got))
                 except Exception as e:
-                    reads.append(("raised " + type(e).__name__, None, None))
+                    reads.append(("raised " + type(e).__name__, None, None, None))
     lp = sw.solver.getLp()
     if reads is not None:
-        reads.append(("offset", lp.offset_, None))
+        reads.append(("offset", lp.offset_, None, None))
+    if extra is not None:
+        extra["handles"] = handles
+        extra["maximize"] = int(lp.sense_) == -1
     return [[qstr(lp.col_lower_[j]), qstr(lp.col_upper_[j]), qstr(lp.col_cost_[j])] for j in range(lp.num_col_)]
 
 
@@ -256,9 +291,10 @@ def history_oracle(ops, final):
 
 def readback_oracle(ops):
     """property text, recomputed independently: after every optimize() the status is optimal or infeasible as the box says, the
-    values read back for a column with non-zero cost are its lower (cost > 0) or upper (cost < 0) bound, the objective value is
-    sum cost*value + the constant of the LAST objective; at the end the stored offset is that constant"""
-    cols, pf, pl, const, out = [], [], [], Fraction(0), []
+    values read back for a column with non-zero cost are its lower (cost > 0) or upper (cost < 0) bound when minimising (the
+    other way round when the LAST objective asked to maximise), the objective value is sum cost*value + the constant of the LAST
+    objective; at the end the stored offset is that constant"""
+    cols, pf, pl, const, out, sign = [], [], [], Fraction(0), [], 1
     for o in ops:
         if o["op"] == "addVars":
             cols += [[Fraction(b[0]), Fraction(b[1]), Fraction(0)] for b in o["bounds"]]
@@ -272,6 +308,7 @@ def readback_oracle(ops):
             for i, c in o["terms"]:
                 cols[i][2] += Fraction(c)
             const = Fraction(o["const"]) if o.get("const") is not None else Fraction(0)
+            sign = -1 if o.get("sense") in ("maximize", "max") else 1
         elif o["op"] == "optimize":
             for i, v in pf:
                 cols[i][0] = cols[i][1] = v
@@ -279,22 +316,63 @@ def readback_oracle(ops):
                 cols[i][0] = v
             pf, pl = [], []
             feasible = all(a <= b for a, b, _ in cols)
-            want = [(a if c > 0 else b if c < 0 else None) for a, b, c in cols]
-            obj = sum((a if c > 0 else b) * c for a, b, c in cols if c != 0) + const if feasible else None
+            want = [(a if sign * c > 0 else b if sign * c < 0 else None) for a, b, c in cols]
+            obj = sum((a if sign * c > 0 else b) * c for a, b, c in cols if c != 0) + const if feasible else None
             out.append((feasible, want, obj))
     return out, const
 
 
+def _close(x, q, tol=1e-9):
+    return x is not None and abs(x - float(Fraction(q))) <= tol * max(1.0, abs(float(Fraction(q))))
+
+
+def readback_diff(real_offset, extra, reads, full):
+    """real wrapper vs. Lean model (`wrapper.ops` with "full"): objective constant, sense, column indices of the variables
+    returned by add_variables, and per optimize(): status, get_values on every determined column, get_values on the asked
+    sub-selection (keys, order, values), get_objective_value. Returns None or the first difference."""
+    def d(what, impl, model):
+        return {"what": what, "impl": impl, "model": model}
+    if not _close(real_offset, full["offset"]):
+        return d("objective constant (HighsLp.offset_)", real_offset, full["offset"])
+    if extra["maximize"] != full["maximize"]:
+        return d("objective sense", extra["maximize"], full["maximize"])
+    if extra["handles"] != full["handles"]:
+        return d("column indices of the variables returned by add_variables", extra["handles"], full["handles"])
+    if len(reads) != len(full["reads"]) or full["nSolves"] != len(reads):
+        return d("number of solves", len(reads), [len(full["reads"]), full["nSolves"]])
+    for t, ((st, vals, obj, got), m) in enumerate(zip(reads, full["reads"])):
+        if m["nSolves"] != t + 1:
+            return d(f"optimize() #{t}: solve counter", t + 1, m["nSolves"])
+        if not m["feasible"]:
+            if st != "kInfeasible":
+                return d(f"optimize() #{t}: status", st, "infeasible")
+            continue                      # what HiGHS keeps after an infeasible solve is not modelled
+        if st != "kOptimal" or vals is None:
+            return d(f"optimize() #{t}: status", st, "optimal")
+        if len(vals) != len(m["values"]):
+            return d(f"optimize() #{t}: length of the solution vector", len(vals), len(m["values"]))
+        bad = [j for j, q in enumerate(m["values"]) if q is not None and not _close(vals[j], q)]
+        if bad:
+            return d(f"optimize() #{t}: get_values on column(s) {bad}", [vals[j] for j in bad], [m["values"][j] for j in bad])
+        if not _close(obj, m["obj"]):
+            return d(f"optimize() #{t}: get_objective_value", obj, m["obj"])
+        if got is not None:
+            if m["got"] is None or [k for k, _ in got] != [k for k, _ in m["got"]] or \
+                    any(q is not None and not _close(v, q) for (_, v), (_, q) in zip(got, m["got"])):
+                return d(f"optimize() #{t}: get_values on the asked selection (keys in order, values)", got, m["got"])
+    return None
+
+
 def run_history(ctx, ops, suite="K1.history"):
     variant = ctx.rng.choice([0, 0, 1, 2])
-    reads = []
-    real = run_history_real(ctx.fp, ops, variant, reads)
+    reads, extra = [], {}
+    real = run_history_real(ctx.fp, ops, variant, reads, extra)
     # ---- oracle on what is read back after every optimize() and on the stored objective constant
     want_reads, want_const = readback_oracle(ops)
     ctx.rep.cov["oracle_evaluations"] += 1
     off = reads.pop()
     rsite = None
-    for t, ((st, vals, obj), (feasible, want, wobj)) in enumerate(zip(reads, want_reads)):
+    for t, ((st, vals, obj, _got), (feasible, want, wobj)) in enumerate(zip(reads, want_reads)):
         if not feasible:
             continue
         if st != "kOptimal" or vals is None:
@@ -314,13 +392,18 @@ def run_history(ctx, ops, suite="K1.history"):
                                         f"{want_const}: the replaced objective's constant survives")
     if rsite:
         ctx.violation(what, {"ops": ops, "wrapper_variant": variant}, site=rsite)
-    model = ctx.driver.call({"op": "wrapper.ops", "ops": ops, "field": "upper"})
+    full = ctx.driver.call({"op": "wrapper.ops", "ops": ops, "field": "upper", "full": True})
+    model = full["cols"]
     nontriv = any(o["op"] in ("queueFix", "queueLb", "setObjective") for o in ops)
     ctx.rep.count(suite, ops, nontrivial=nontriv, hist=[o["op"] for o in ops])
     ctx.rep.cov["traces_validated_against_impl"] += 1
     inp = {"ops": ops}
     if real != model:
         ctx.disagree(suite, inp, real, model)
+    # ---- K1 on the objective constant / sense, the variable handles and everything read back after each optimize()
+    diff = readback_diff(off[1], extra, reads, full)
+    if diff:
+        ctx.disagree(suite, dict(inp, wrapper_variant=variant), diff["impl"], diff["model"], note=diff["what"])
     ctx.rep.cov["oracle_evaluations"] += 1
     want = history_oracle(ops, real)
     if real != want:
